@@ -46,7 +46,9 @@ def emap(fn, *arrs):
     """elementwise map with broadcasting over object arrays -> SymArr (or scalar for 0-d scalar inputs)"""
     scalar = all(not isinstance(a, np.ndarray) for a in arrs)
     bs = np.broadcast_arrays(*[asobj(a) for a in arrs], subok=False)
-    out = np.empty(bs[0].shape, dtype=object)
+    # numpy ufuncs keep the memory layout of their inputs (order='K'): do the same
+    forder = any(isinstance(a, np.ndarray) and a.ndim > 1 and a.flags.f_contiguous and not a.flags.c_contiguous for a in arrs)
+    out = np.empty(bs[0].shape, dtype=object, order='F' if forder else 'C')
     for idx in np.ndindex(out.shape):
         out[idx] = fn(*[b[idx] for b in bs])
     if scalar and out.shape == ():
@@ -199,14 +201,62 @@ def _selects_single_element(arr, key):
     return all(isinstance(k, (int, np.integer)) for k in key)
 
 
+def _abstract_real_conditions(t):
+    """replace every maximal boolean subterm that talks about reals by a fresh boolean constant (same subterm -> same
+    constant): the integer structure of an index term is kept, its data-dependent conditions become free"""
+    cache = {}
+    hasreal = {}
+
+    def real_inside(e):
+        k = e.get_id()
+        if k not in hasreal:
+            if e.sort() == z3.RealSort():
+                hasreal[k] = True
+            else:
+                hasreal[k] = any(real_inside(c) for c in e.children())
+        return hasreal[k]
+
+    def go(e):
+        k = e.get_id()
+        if k in cache:
+            return cache[k]
+        if z3.is_bool(e) and real_inside(e):
+            r = z3.Bool('ab!%d' % k)
+        elif z3.is_app(e) and e.num_args() > 0:
+            r = e.decl()(*[go(c) for c in e.children()])
+        else:
+            r = e
+        cache[k] = r
+        return r
+    return go(t)
+
+
 def select(items, idx):
-    """items[idx] for a symbolic integer idx (exact index semantics as If-terms)"""
+    """items[idx] for a symbolic integer idx (exact index semantics as If-terms).  Positions that idx provably cannot
+    take (decided by the solver on the index term alone) are pruned, so the gathered term only mentions the entries
+    that can actually be selected."""
     if not isinstance(idx, Z):
         return items[idx]
     n = len(items)
-    e = items[n - 1]
-    for i in range(n - 2, -1, -1):
-        e = ite(B(idx.t == i), items[i], e)
+    t = z3.simplify(idx.t)
+    if z3.is_int_value(t):
+        return items[t.as_long()]
+    feas = []
+    s = z3.Solver()
+    s.set('timeout', 2000)
+    ta = _abstract_real_conditions(t)       # sound over-approximation of the values idx can take
+    for i in range(n):
+        s.push()
+        s.add(ta == i)
+        r = s.check()
+        s.pop()
+        if r != z3.unsat:
+            feas.append(i)
+    if not feas:
+        feas = list(range(n))
+    e = items[feas[-1]]
+    for i in reversed(feas[:-1]):
+        e = ite(B(t == i), items[i], e)
     return e
 
 
